@@ -63,6 +63,7 @@ func runC13(c *Ctx) {
 	c.readsAllRule("encode-exhaustive", "sbom.(*NodeList).Equal", "NodeList", true)
 	c.floor("encode-exhaustive", 43, "26+3+6+5+3 schema fields")
 	encodingHistoryFree(c, "encoding-history-free", "sbom.(*Node).flatString", "sbom.(*Edge).flatString", "sbom.(*Person).flatString", "sbom.(*ExternalReference).flatString")
+	distinctFieldTags(c, "distinct-field-tags", "sbom.(*Person).flatString", "sbom.(*ExternalReference).flatString")
 	for _, f := range []string{"sbom.(*Node).flatString", "sbom.(*Edge).flatString", "sbom.(*Person).flatString",
 		"sbom.(*ExternalReference).flatString", "sbom.(*NodeList).Equal", "sbom.flatStringStrSlice", "sbom.flatStringMap"} {
 		c.sortedBeforeSinkRule(f)
